@@ -412,7 +412,7 @@ Definition sc_begin_file : outcome str :=
   end.
 
 (* scala.rs:409 begin_package_object, 420 begin_package: nothing is opened when the package has
-   no dot ... *)
+   no dot *)
 Definition sc_begin_package_object : str :=
   match sc_rsplit_once sc_ch_dot (sc_package cfg) with
   | None => []
@@ -423,9 +423,13 @@ Definition sc_begin_package : str :=
   | None => []
   | Some (_, last) => lit "package " ++ last ++ lit " {" ++ sc_nl ++ sc_nl
   end.
-(* ... but scala.rs:440 end_package_object, 445 end_package always close a brace *)
-Definition sc_end_package_object : str := lit "}" ++ sc_nl.
-Definition sc_end_package : str := lit "}" ++ sc_nl.
+(* scala.rs:442 end_package_object, 450 end_package close the block only when the package name contains a dot,
+   i.e. only when begin_package_object / begin_package opened one (/repo fix of C10-scala-package-brace; before
+   it the `}` was printed unconditionally) *)
+Definition sc_end_package_object : str :=
+  if contains_char sc_ch_dot (sc_package cfg) then lit "}" ++ sc_nl else [].
+Definition sc_end_package : str :=
+  if contains_char sc_ch_dot (sc_package cfg) then lit "}" ++ sc_nl else [].
 
 Definition sc_is_empty {A} (l : list A) : bool := match l with [] => true | _ => false end.
 
